@@ -21,6 +21,7 @@ import ClipperVerif.Driver.C03
 import ClipperVerif.Driver.C04
 import ClipperVerif.Driver.C12
 import ClipperVerif.Driver.AddPaths
+import ClipperVerif.Driver.C10Isect
 namespace Clipper.Driver
 open Clipper.Proto
 
@@ -47,7 +48,8 @@ def handlers : List (String → Option (P String)) := [
   C03.handle,
   C04.handle,
   C12.handle,
-  AddPaths.handle
+  AddPaths.handle,
+  C10Isect.handle
 ]
 
 def dispatch1 (cmd : String) : Option (P String) :=
